@@ -140,6 +140,11 @@ def check(ctx):
                    msg="timer callback %s leaves its own (fired) handle stored in %s and %s later cancels it without .active(): "
                        "AlreadyCalled is raised and the remaining clean-up is skipped" % (short(ent.func.qual), ".".join(loc), short(e.func)),
                    trigger=tr.label())
+        for tr, e, loc, tr2, e2 in hd.cancelled_kept():
+            ctx.ob("H-FIRED", "%s %s leaves no cancelled handle behind" % (cq, tr.label()), False, where=where(e), function=e.func,
+                   construct="%s/cancelled-handle-kept/%s" % (e.func, ".".join(loc)),
+                   msg="%s cancels the handle in %s and leaves it stored; connectionLost (%s) cancels it again: AlreadyCancelled is raised "
+                       "and the remaining clean-up (the retry alarms of every window) is skipped" % (tr.label(), ".".join(loc), where(e2)))
         if not seen:
           ctx.ob("H-FIRED", "%s no timer callback leaves a fired handle that is cancelled later" % cq, True, nontrivial=False,
                construct="%s/fired-handle/any" % cls.qual, where=cls.module.path)
